@@ -220,7 +220,9 @@ struct Small {
 
 fn small_vals<T: BE>(d: &[u8]) -> Vec<T> {
     if T::IS_FLOAT {
-        d.iter().map(|&x| T::from_f64([0.0, 0.1, 0.7, 1.0 / 3.0, 1e6 + 0.1][x as usize]).unwrap()).collect()
+        // 60000.1 instead of 1e6+0.1 on every other data set: bin counts between 2^16 and the bin limit occur
+        let far = if d.iter().map(|&x| x as usize).sum::<usize>() % 2 == 0 { 1e6 + 0.1 } else { 60000.1 };
+        d.iter().map(|&x| T::from_f64([0.0, 0.1, 0.7, 1.0 / 3.0, far][x as usize]).unwrap()).collect()
     } else {
         d.iter().map(|&x| T::from_usize([0usize, 1, 2, 5, 11][x as usize]).unwrap()).collect()
     }
@@ -256,7 +258,7 @@ const FPAIRS: [(f64, f64); 13] = [
     (0.7, 11.3),
     (-2.5e-7, 3.75e8),
 ];
-const IPAIRS: [(i64, i64); 5] = [(0, 1), (0, 7), (-50, 1000), (3, 1_000_003), (-1_000_000_000, 1_000_000_000)];
+const IPAIRS: [(i64, i64); 10] = [(0, 1), (0, 7), (-50, 1000), (3, 1_000_003), (-1_000_000_000, 1_000_000_000), (0, 19), (0, 50), (5, 37), (0, 200), (-7, 3000)];
 
 /// data of length n with the given minimum and maximum and quartile placement
 fn large_data<T: BE>(n: usize, lo: f64, hi: f64, placement: u8, int: bool) -> Vec<T> {
@@ -375,7 +377,7 @@ fn main() {
     let cases = (0..=lmax).flat_map(|l| sequences(l, 5)).flat_map(|d| (0..5u8).map(move |ty| Small { digits: d.clone(), ty }));
     rep.run_sub(
         "small-complete",
-        &format!("every data set of length 0..={} over {{0,1,2,5,11}} (i32, i64, u32, usize) and {{0, 0.1, 0.7, 1/3, 1e6+0.1}} (N64) x Sqrt, Rice, Sturges, FreedmanDiaconis, Auto", lmax),
+        &format!("every data set of length 0..={} over {{0,1,2,5,11}} (i32, i64, u32, usize) and {{0, 0.1, 0.7, 1/3, 1e6+0.1 or 60000.1}} (N64) x Sqrt, Rice, Sturges, FreedmanDiaconis, Auto", lmax),
         cases,
         |c, lx| {
             let mut d = c.digits.clone();
@@ -416,7 +418,7 @@ fn main() {
     }
     rep.run_sub(
         "every-n",
-        &format!("every n in 2..={} for Sqrt / Rice / Sturges and every n <= 600 plus every 97th above for FreedmanDiaconis / Auto (3 quartile placements: zero IQR, evenly spread, quartiles at the extremes; the two tie-heavy placements densely for n <= 300 and every 97th n above) x 13 N64 (min,max) pairs (non-representable decimals, 1e6 offset with small spread, adjacent floats (1, 1+eps), (1, 1+4eps), (1e16, 1e16+2), +-1e-300, 1e300 scale) and 5 integer pairs (i64; usize when non-negative)", nmax),
+        &format!("every n in 2..={} for Sqrt / Rice / Sturges and every n <= 600 plus every 97th above for FreedmanDiaconis / Auto (3 quartile placements: zero IQR, evenly spread, quartiles at the extremes; the two tie-heavy placements densely for n <= 300 and every 97th n above) x 13 N64 (min,max) pairs (non-representable decimals, 1e6 offset with small spread, adjacent floats (1, 1+eps), (1, 1+4eps), (1e16, 1e16+2), +-1e-300, 1e300 scale) and 10 integer pairs incl. narrow ranges with heavy ties such as (0,19), (5,37), (0,200) (i64; usize when non-negative)", nmax),
         cases.into_iter(),
         |c, lx| {
             lx.nontrivial(true);
